@@ -489,7 +489,7 @@ pub fn run(ctx: &mut Ctx, mode: Mode) {
     ctx.require_class("over_long", "longer_than_1000_bytes", c / 2);
     ctx.extra.insert("exhaustive_over".into(), json!(format!("all strings of length <= {} over the 29-symbol alphabet; all token-shape strings with arbitrary ranks", maxlen)));
     if tier == Tier::Thorough && !ctx.failed() {
-        crate::fuzzrun::campaign(ctx, "fz_parse", 60_000, 16, 96);
+        crate::fuzzrun::campaign(ctx, "fz_parse", 12_000, 16, 96);
     }
 }
 
